@@ -36,10 +36,10 @@ RegionRects == { r \in RectsOn(0, DW, 0, DH) : TRUE }
 ScaleK(r) == Rect(KU * r.x1, KU * r.y1, KU * r.x2, KU * r.y2)
 Tup(r) == <<r.x1, r.y1, r.x2, r.y2>>
 
-\* shapes of movable modules: one lattice rectangle (may stick out by OUT steps), or a square of side s around a lattice point
+\* shapes of movable modules: one lattice rectangle (may stick out by OUT steps), or a square of side s around a lattice point (also on the die border: the square then sticks out)
 ShapeRects == { ScaleK(r) : r \in RectsOn(0, DW + OUT, 0, DH + OUT) }
 Squares == { Rect(KU * i - s \div 2, KU * j - s \div 2, KU * i + s \div 2, KU * j + s \div 2) :
-               i \in 1..DW, j \in 1..DH, s \in SIDES }
+               i \in 0..DW, j \in 0..DH, s \in SIDES }
 KeyR(t) == (((t[1] * 64 + t[2]) * 64 + t[3]) * 64 + t[4])
 MaxKeyR(d) == IF d = {} THEN -1 ELSE Max({ KeyR(t) : t \in d })
 
